@@ -265,12 +265,16 @@ Fixpoint find_dv (id : N) (dvs : list dvar) : option dvar :=
   | v :: dvs' => if (dv_id v =? id)%N then Some v else find_dv id dvs'
   end.
 
+(* `id as i64`: the two's-complement image of a u64 (ids >= 2^63 become negative subscripts) *)
+Definition as_i64 (n : N) : Z :=
+  let z := Z.of_N n in if (z <? 9223372036854775808)%Z then z else (z - 18446744073709551616)%Z.
+
 Fixpoint new_bits (orig : N) (base : N) (k : nat) (i : N) : list dvar :=
   match k with
   | O => []
   | S k' =>
       {| dv_id := base + i; dv_kind := KIND_BINARY; dv_bound := Some (Fin 0, Fin 1); dv_subst := None;
-         dv_meta := [L [A "ommx.log_encode"]; L [I (Z.of_N orig); I (Z.of_N i)]; L []; L []] |}
+         dv_meta := [L [A "ommx.log_encode"]; L [I (as_i64 orig); I (Z.of_N i)]; L []; L []] |}
       :: new_bits orig base k' (i + 1)
   end%N.
 Fixpoint enum_from (base : N) (l : list N) : list (N * num) :=
